@@ -94,6 +94,7 @@ OPT_CODES = {
 BOUNDS = {
     'quick': {'opt_codes': len(OPT_CODES['quick']), 'opt_max_n': 18, 'noises': len(NOISES), 'rates': RATES,
               'tc_d_max': 4, 'tc_l_max': 6, 'tc_extra_sizes': [[5, 5]], 'tc_union_find': False,
+              'tc_union_find_sizes': [[3, 3], [3, 4], [4, 4], [5, 5]],
               'sm_toric3d_max_n': 250, 'sm_rotated_planar3d_max_n': 100},
     'thorough': {'opt_codes': len(OPT_CODES['thorough']), 'opt_max_n': 18, 'noises': len(NOISES), 'rates': RATES,
                  'tc_d_max': 5, 'tc_l_max': 7, 'tc_extra_sizes': [], 'tc_union_find': True,
@@ -142,11 +143,14 @@ def cases(tier, seed):
     decs = [('MatchingDecoder', c) for c in ('Toric2DCode', 'Planar2DCode', 'RotatedPlanar2DCode')]
     if b['tc_union_find']:
         decs.append(('UnionFindDecoder', 'Toric2DCode'))
+    uf_quick = [] if b['tc_union_find'] else [tuple(s) for s in b.get('tc_union_find_sizes', [])]
     heavy = []
     for s in sizes2:
         t = (min(s) - 1) // 2
         for dec, cls in decs:
             (out if t < 2 else heavy).extend(_lw_cases('tc', dec, cls, s, t))
+        if s in uf_quick:
+            (out if t < 2 else heavy).extend(_lw_cases('tc', 'UnionFindDecoder', 'Toric2DCode', s, t))
     for cls, size in OPT_CODES[tier]:
         for noise in NOISES:
             out.append({'part': 'opt', 'cls': cls, 'size': size, 'noise': noise, 'rates': RATES})
